@@ -139,7 +139,28 @@ func (w *World) rulesAutomaton(p *Pkg, m *parseModel, add func(ok bool, rule, in
 			}
 			return Val{K: VOpaque, S: "set-error"}, true, nil
 		}
+		// calls into other packages (pool, atomics, logging) cannot steer the cursor;
+		// the strings package is the exception: its results may be compared
+		if fn.Pkg() != nil && fn.Pkg() != p.P.Types && fn.Pkg().Path() != "strings" {
+			return Val{K: VOpaque, S: fn.Name()}, true, nil
+		}
 		return Val{}, false, nil
+	}
+	// every other local of ParseVector (pooled buffers, the split parts, ...) is an
+	// opaque value: it cannot influence the cursor
+	bindOpaque := func(ce *cEnv) {
+		ast.Inspect(fd.Body, func(n ast.Node) bool {
+			if id, ok := n.(*ast.Ident); ok {
+				if o, ok := info.Defs[id].(*types.Var); ok && o != nil {
+					if _, has := ce.vars[o]; !has {
+						if b, ok := o.Type().Underlying().(*types.Basic); !ok || (b.Info()&types.IsInteger == 0 && b.Info()&types.IsString == 0) {
+							ce.vars[o] = Val{K: VOpaque, S: o.Name()}
+						}
+					}
+				}
+			}
+			return true
+		})
 	}
 	key := func(vals map[types.Object]int64) autoState {
 		var parts []string
@@ -161,6 +182,7 @@ func (w *World) rulesAutomaton(p *Pkg, m *parseModel, add func(ok bool, rule, in
 		for o, v := range st {
 			ce.vars[o] = vInt(v)
 		}
+		bindOpaque(ce)
 		ce.vars[m.abvObj] = vStr(abv)
 		ce.vars[m.valObj] = vStr("?")
 		if m.objVar != nil {
@@ -195,6 +217,7 @@ func (w *World) rulesAutomaton(p *Pkg, m *parseModel, add func(ok bool, rule, in
 	accepts := func(st map[types.Object]int64) (bool, string, error) {
 		ce := newCEnv(p, make([]uint8, len(p.Fields)))
 		ce.hook = hook
+		bindOpaque(ce)
 		for o, v := range st {
 			ce.vars[o] = vInt(v)
 		}
